@@ -470,7 +470,11 @@ mismatch between values and axes""".format(inferred, self.values.shape)
         #TODO: use the __new__ operator to bypass all checkings in __init__
         # just check consistency between axes and values shape
 
-        return cls(values, axes, **metadata)
+        # metadata is not passed on to __init__, where entries named like one of its
+        # keywords (dtype, dims, labels, copy...) would be taken for arguments
+        obj = cls(values, axes)
+        obj.attrs.update(metadata)
+        return obj
 
     def copy(self, shallow=False):
         """ copy of the object and update arguments
